@@ -412,6 +412,11 @@ func c20R6(c *Ctx, rule string) {
 			nilRet++
 			c.RequireAt(r, rule, fmt.Sprintf("Restore:return#%d", i+1), ret, "success is the no-op's outcome (committed ⇒ followers have been sent the snapshot)", func(v engine.View) bool { return v.Seen("noop") && v.F("restoreErr") })
 		default:
+			if strings.HasPrefix(d, "errors.New(") || strings.HasPrefix(d, "fmt.Errorf(") {
+				// an argument check: refusing before anything was enqueued has no effect at all
+				c.RequireAt(r, rule, fmt.Sprintf("Restore:return#%d", i+1), ret, "a freshly built error is returned only before the restore was enqueued (a refusal without effect)", func(v engine.View) bool { return !v.Seen("asked") && !v.Seen("noop") })
+				continue
+			}
 			c.Bad(rule, fmt.Sprintf("Restore:return#%d", i+1), c.P.InstrPos(ret), "one of the five documented outcomes", "returns "+d)
 		}
 	}
